@@ -142,7 +142,7 @@ def main():
                   "baseline_off_cmd": "cd /repo && cargo test --workspace --no-fail-fast --offline", "source_commits": [], "add_only": True},
         "engines": [
             {"name": "verus-units", "path": "vlib/transplant.py + contracts/verus/*.vt", "serves_properties": ["C01", "C02", "C03", "C04", "C05", "C10", "C11", "C12", "C13", "C18"],
-             "kind_free_text": "22 units: real functions (and, rule B1, blocks of functions) extracted mechanically from the snapshot, annotations transplanted by token alignment (following renamed locals and moved code), verified by Verus/Z3"},
+             "kind_free_text": "18 units: real functions (and, rule B1, blocks of functions) extracted mechanically from the snapshot, annotations transplanted by token alignment (following renamed locals and moved code), verified by Verus/Z3"},
             {"name": "kani-contracts+step-harnesses", "path": "contracts/kani/lexgen_util.py + vlib/gen_corpus.py + corpus/defs.py",
              "serves_properties": ["C01", "C02", "C03", "C04", "C05", "C06", "C07", "C08", "C09", "C10", "C11", "C14", "C15"],
              "kind_free_text": "Kani function contracts / complete loop-free harnesses on lexgen_util (proved) and bounded step-contract harnesses on macro-expanded corpus lexers against a generated reference"},
